@@ -27,6 +27,9 @@ func c05(tier string) []*explore.Scenario {
 		if len(m) == 2 {
 			out = append(out, c05Client(m, 1))
 		}
+		if len(m) <= 3 {
+			out = append(out, c05ClientL(m, 0, true), c05ClientL(reverse(m), 0, true))
+		}
 	}
 	// (b) server seam: every arrival order of the request envelopes of k streams
 	for _, k := range []int{2, 3} {
@@ -55,10 +58,12 @@ func c05(tier string) []*explore.Scenario {
 
 // c05Client: k calls outstanding against a scripted peer that answers them in
 // every per-call-order-preserving interleaving.
-func c05Client(mix string, bound int) *explore.Scenario {
+func c05Client(mix string, bound int) *explore.Scenario { return c05ClientL(mix, bound, false) }
+
+func c05ClientL(mix string, bound int, late bool) *explore.Scenario {
 	fam := "C05/client-seam"
 	return &explore.Scenario{
-		Name:   fmt.Sprintf("C05/client-seam/mix=%s/d=%d", mix, bound),
+		Name:   fmt.Sprintf("C05/client-seam/mix=%s/d=%d/late=%v", mix, bound, late),
 		Family: fam, Prop: "C05", Bound: bound,
 		Run: func() {
 			w := env.NewWorld()
@@ -125,11 +130,23 @@ func c05Client(mix string, bound int) *explore.Scenario {
 					scripts = append(scripts, []*env.Rpc{h, env.RespBody(id, env.MBidi, tag+".b1"), tr})
 				}
 			}
+			// late envelopes: two more for call 0's id, arriving (anywhere) after call 0's own
+			// script is through - a duplicate reply / bodies after the trailer. Nobody may see them.
+			lateIdx := -1
+			if late {
+				lateIdx = len(scripts)
+				id0 := ids["c0"]
+				if mix[0] == 'u' {
+					scripts = append(scripts, []*env.Rpc{env.RespUnary(id0, "LATE1"), env.RespUnary(id0, "LATE2")})
+				} else {
+					scripts = append(scripts, []*env.Rpc{env.RespBody(id0, env.MBidi, "LATE1"), env.RespBody(id0, env.MBidi, "LATE2")})
+				}
+			}
 			order := ""
 			for {
 				var avail []int
 				for i, s := range scripts {
-					if len(s) > 0 {
+					if len(s) > 0 && (i != lateIdx || len(scripts[0]) == 0) {
 						avail = append(avail, i)
 					}
 				}
@@ -137,7 +154,12 @@ func c05Client(mix string, bound int) *explore.Scenario {
 					break
 				}
 				i := avail[vsched.Choose(len(avail))]
-				order += fmt.Sprint(i)
+				if i == lateIdx {
+					order += "L"
+					vsched.Quiesce() // really late: call 0 has finished and released its registration
+				} else {
+					order += fmt.Sprint(i)
+				}
 				if err := d.Pipe.B.Inject(scripts[i][0]); err != nil {
 					vsched.Fail(fam+"|peer", "peer write failed: %v", err)
 					return
@@ -346,4 +368,12 @@ func c05FailedWrite(bound int) *explore.Scenario {
 			finishDirect(d, w, true)
 		},
 	}
+}
+
+func reverse(s string) string {
+	b := []byte(s)
+	for i, j := 0, len(b)-1; i < j; i, j = i+1, j-1 {
+		b[i], b[j] = b[j], b[i]
+	}
+	return string(b)
 }
